@@ -120,7 +120,9 @@ def c11(tier, seed):
         elif tier == 'quick':
             plan = [('bfs', 1, False, ['A']), ('sim', 'num=4', 4, False, ['E'])]
         else:
-            plan = [('bfs', 2, False, ['A']), ('bfs', 1, True, ['E', 'I']), ('sim', 'num=60', 5, True, ['E', 'I', 'A'])]
+            plan = [('bfs', 2, False, ['A']), ('bfs', 1, True, ['E', 'I']), ('sim', 'num=120', 3, True, ['E', 'I', 'A'])]
+        # (random walks of depth 5 reach recursive types beyond their first unfolding, where ConGen's value tables do not
+        # claim boundary completeness)
         cases = generate(run, 'ConGen', 'ConSpec', 'ConEmit', plan, 'g') + witness_cases('C11')
         for c in cases:
             c.pop('exp', None)      # the expectation is recomputed by the trace specification
